@@ -183,48 +183,146 @@ def r12_2(ctx, m):
     if str_src is not None:
         ok_m = norm(src).endswith(".replace('M', '=')") or "replace" not in norm(src)
         ctx.check(ok_m, "R12.2", wf.where(emits[0]), "the emitted string spells matches as '=' (M -> =), nothing else is rewritten", key_of(wf, f"cigar-spelling:{norm(src)}"), expr=norm(src))
-    # op-code table
+    # op-code table, by abstract evaluation of the loop body for each op code: which accumulators grow by the operation's
+    # length, which letter is spelled, whether an unknown code fails loudly.  Accumulators may be plain names or cells of
+    # a table keyed by the op code (`totals[op] += n`); tests may compare the code or look it up in a literal table.
     opv, lenv = [norm(e) for e in oploop.target.elts]
+    consts = wf.module.consts
+
+    from ..core import local_defs as _ld0
+
+    wdefs0 = _ld0(wf.node)
+
+    def table_keys(e, depth=0):
+        d = consts.get(e.id) if isinstance(e, ast.Name) else e
+        if d is None and isinstance(e, ast.Name) and depth < 3:
+            ds = [x for x in wdefs0.get(e.id, []) if x is not None]
+            if len(ds) == 1:
+                d = ds[0]
+        if isinstance(d, ast.Call) and norm(d.func) == "dict.fromkeys" and d.args:
+            keys, _ = table_keys(d.args[0], depth + 1)
+            return keys, {}
+        if isinstance(d, ast.DictComp) and len(d.generators) == 1 and norm(d.key) == norm(d.generators[0].target):
+            keys, _ = table_keys(d.generators[0].iter, depth + 1)
+            return keys, {}
+        if isinstance(d, ast.Dict):
+            return [const_value(k, "?") for k in d.keys], {const_value(k, "?"): v for k, v in zip(d.keys, d.values)}
+        if isinstance(d, (ast.Tuple, ast.List, ast.Set)):
+            return [const_value(k, "?") for k in d.elts], {}
+        return None, {}
+
+    def truth(t, code):
+        if isinstance(t, ast.UnaryOp) and isinstance(t.op, ast.Not):
+            v = truth(t.operand, code)
+            return None if v is None else (not v)
+        if isinstance(t, ast.BoolOp):
+            vs = [truth(v, code) for v in t.values]
+            if isinstance(t.op, ast.And):
+                return False if any(v is False for v in vs) else (True if all(v is True for v in vs) else None)
+            return True if any(v is True for v in vs) else (False if all(v is False for v in vs) else None)
+        if isinstance(t, ast.Compare) and len(t.ops) == 1 and norm(t.left) == opv:
+            c = t.comparators[0]
+            if isinstance(t.ops[0], (ast.Eq, ast.NotEq)) and isinstance(c, ast.Constant):
+                return (code == c.value) == isinstance(t.ops[0], ast.Eq)
+            if isinstance(t.ops[0], (ast.In, ast.NotIn)):
+                keys, _ = table_keys(c)
+                if keys is not None and "?" not in keys:
+                    return (code in keys) == isinstance(t.ops[0], ast.In)
+        return None
+
+    paths_op = enum_paths(oploop.body, rule="R12.2", where=wf.where(oploop))
     table = {}
-    cur = oploop.body[0] if oploop.body and isinstance(oploop.body[0], ast.If) else None
     default_assert = False
-    while cur is not None:
-        t = cur.test
-        code = const_value(t.comparators[0]) if isinstance(t, ast.Compare) and norm(t.left) == opv and isinstance(t.ops[0], ast.Eq) else None
-        incs = [norm(s.target) for s in cur.body if isinstance(s, ast.AugAssign) and norm(s.value) == lenv]
-        letters = [s.value.right.value for s in cur.body if isinstance(s, ast.AugAssign) and isinstance(s.value, ast.BinOp) and isinstance(s.value.right, ast.Constant)]
-        table[code] = (incs, letters)
-        if len(cur.orelse) == 1 and isinstance(cur.orelse[0], ast.If):
-            cur = cur.orelse[0]
+    for code in (0, 1, 2, 8, 4, 99):
+        incs, letters, loud = set(), [], False
+        n_cons = 0
+        for p in paths_op:
+            if any(truth(t, code) is not None and truth(t, code) != pol for t, pol in p.tests()):
+                continue
+            n_cons += 1
+            if p.term == "raise" or any(e.kind == "stmt" and isinstance(e.node, ast.Assert) and const_value(e.node.test, 1) is False for e in p.events):
+                loud = True
+            for e in p.events:
+                if e.kind != "stmt" or not isinstance(e.node, ast.AugAssign):
+                    continue
+                st = e.node
+                if norm(st.value) == lenv:
+                    tg = st.target
+                    if isinstance(tg, ast.Subscript) and norm(tg.slice) == opv:
+                        incs.add(f"{norm(tg.value)}[{code!r}]")
+                    else:
+                        incs.add(norm(tg))
+                elif isinstance(st.value, ast.BinOp) and isinstance(st.value.op, ast.Add):
+                    r = st.value.right
+                    if isinstance(r, ast.Constant):
+                        letters.append(r.value)
+                    elif isinstance(r, ast.Subscript) and norm(r.slice) == opv:
+                        _, vals = table_keys(r.value)
+                        if code in vals and isinstance(vals[code], ast.Constant):
+                            letters.append(vals[code].value)
+        if n_cons == 0:
+            raise AnalysisError("R12.2", wf.where(oploop), f"no path of the op-code dispatch is consistent with code {code}")
+        if code == 99:
+            default_assert = loud
         else:
-            default_assert = any(isinstance(s, ast.Assert) and const_value(s.test, 1) is False for s in cur.orelse) or any(isinstance(s, ast.Raise) for s in cur.orelse)
-            cur = None
+            table[code] = (sorted(incs), letters)
     # which accumulators feed columns 10 and 11
     schema, extras, ems = emit.find_emitters(ctx, "R12.2")
     acc10 = acc11 = None
+    from ..core import local_defs as _ld
+
+    wdefs = _ld(wf.node)
+
+    def acc_name(x):
+        """canonical accumulator of a column hole: the name itself, or the table cell it was read from"""
+        for _ in range(3):
+            if isinstance(x, ast.Name):
+                ds = [d for d in wdefs.get(x.id, []) if d is not None]
+                if len(ds) == 1 and isinstance(ds[0], ast.Name):
+                    x = ds[0]
+        if isinstance(x, ast.Name):
+            ds = [d for d in wdefs.get(x.id, []) if d is not None]
+            cells = [d for d in ds if isinstance(d, ast.Subscript) and isinstance(const_value(d.slice, None), int)]
+            if cells:
+                return f"{norm(cells[0].value)}[{const_value(cells[0].slice)!r}]"
+            return x.id
+        return None
+
     for f, rec, n in ems:
         if not same_func(f, wf):
             continue
-        parts = tmpl.of_expr(n)
+        parts = emit.candidate_template(n)
         cols = tmpl.columns(parts)
         if len(cols) >= 12 and cols[9] and cols[9][0][0] == "hole" and isinstance(cols[9][0][1], ast.Name):
-            acc10 = cols[9][0][1].id
-            acc11 = cols[10][0][1].id if cols[10] and cols[10][0][0] == "hole" and isinstance(cols[10][0][1], ast.Name) else None
+            acc10 = acc_name(cols[9][0][1])
+            acc11 = acc_name(cols[10][0][1]) if cols[10] and cols[10][0][0] == "hole" else None
+            acc10_name = cols[9][0][1].id
     if acc10 is None or acc11 is None:
         raise AnalysisError("R12.2", wf.where(), "cannot find the accumulators feeding the match-count and block-length columns")
+    # between the op loop and the record template the tallies are not replaced (e.g. by `match or <input column>`: a
+    # realigned count of 0 is a count, not "missing")
+    for accn in {acc10.split("[")[0], acc11.split("[")[0]}:
+        rebinds = [s_ for s_ in walk_own(wf.node) if isinstance(s_, ast.Assign) and any(isinstance(t, ast.Name) and t.id == accn for t in s_.targets) and getattr(s_, "lineno", 0) and not any(x is s_ for x in ast.walk(oploop)) and accn in names_in(s_.value)]
+        for rb in rebinds:
+            ctx.violated("R12.2", wf.where(rb), f"the tally `{accn}` is replaced by `{norm(rb.value)[:60]}` before it is written: a value of 0 computed from the new alignment is discarded in favour of something else", key_of(wf, f"tally-rebound:{accn}:{norm(rb.value)[:60]}"))
     eq_codes = [c for c, (incs, letters) in table.items() if acc10 in incs]
     ok10 = eq_codes == [0] and (not table[0][1] or table[0][1] == ["="])
     ctx.check(ok10, "R12.2", wf.where(oploop), f"the match count `{acc10}` grows only under the op code spelled '=' (code 0: match)", key_of(wf, f"match-tally:{eq_codes}"), codes=eq_codes)
-    # block length: incremented once per tuple, outside the dispatch (or in every aligned branch)
-    after = [s for s in oploop.body if isinstance(s, ast.AugAssign) and norm(s.target) == acc11 and norm(s.value) == lenv]
-    in_all = all(acc11 in incs for c, (incs, _) in table.items() if c in (0, 1, 2, 8))
-    ctx.check(len(after) == 1 or in_all, "R12.2", wf.where(oploop), f"the block length `{acc11}` grows by the length of every aligned operation (=, X, I, D)", key_of(wf, f"block-tally:{len(after)}:{in_all}"))
-    ok_codes = set(table) >= {0, 1, 2, 8} and default_assert
-    ctx.check(ok_codes, "R12.2", wf.where(oploop), "the op-code dispatch covers match, insertion, deletion, mismatch and fails loudly on an unknown code", key_of(wf, f"op-codes:{sorted(k for k in table if k is not None)}:{default_assert}"), codes=sorted(k for k in table if k is not None))
+    # block length: grows by the length of every aligned operation (=, X, I, D)
+    in_all = all(acc11 in table[c][0] for c in (0, 1, 2, 8))
+    ctx.check(in_all, "R12.2", wf.where(oploop), f"the block length `{acc11}` grows by the length of every aligned operation (=, X, I, D)", key_of(wf, f"block-tally:{in_all}"))
+    ok_codes = all(table[c][0] for c in (0, 1, 2, 8)) and default_assert
+    ctx.check(ok_codes, "R12.2", wf.where(oploop), "the op-code dispatch covers match, insertion, deletion, mismatch and fails loudly on an unknown code", key_of(wf, f"op-codes:{sorted(c for c in table if table[c][0])}:{default_assert}"), codes=sorted(c for c in table if table[c][0]))
     # accumulators start at 0 for every record
     loop = [n for n in wf.node.body if isinstance(n, ast.For)][0]
-    inits = [s for s in walk_stmts(loop.body) if isinstance(s, ast.Assign) and (acc10 in norm(s.targets[0]).replace("(", "").replace(")", "").split(", ")) and s.lineno < oploop.lineno]
-    ok_init = bool(inits) and all(const_value(v, 1) == 0 for s in inits for v in (s.value.elts if isinstance(s.value, ast.Tuple) else [s.value]))
+    base10 = acc10.split("[")[0]
+    inits = [s for s in walk_stmts(loop.body) if isinstance(s, ast.Assign) and (base10 in norm(s.targets[0]).replace("(", "").replace(")", "").split(", ")) and s.lineno < oploop.lineno]
+    ok_init = bool(inits)
+    for s_ in inits:
+        vals = s_.value.elts if isinstance(s_.value, ast.Tuple) else [s_.value]
+        for v in vals:
+            zero = const_value(v, 1) == 0 or (isinstance(v, ast.Call) and norm(v.func) == "dict.fromkeys" and len(v.args) == 2 and const_value(v.args[1], 1) == 0) or (isinstance(v, ast.DictComp) and const_value(v.value, 1) == 0)
+            ok_init = ok_init and zero
     ctx.check(ok_init, "R12.2", wf.where(loop), "the tallies are reset to 0 for every record", key_of(wf, "tally-reset"))
 
 
